@@ -183,7 +183,7 @@ pub fn gen_op(rng: &mut Rng, cfg: &Config, class: usize, out: &mut Vec<Op>) {
         "query" => out.push(Op::Query {
             slot,
             q: rng.below(g::QUERIES.len() as u64) as u16,
-            mode: rng.below(3) as u8,
+            mode: rng.below(6) as u8,
             split: rng.below(6) as u8,
             salt: None,
         }),
